@@ -430,9 +430,16 @@ impl<'arena> PrettyFormatter<'arena> {
     ) -> RcDoc<'arena> {
         comments
             .iter()
-            .fold(RcDoc::nil(), |prefix, comment| {
+            .enumerate()
+            .fold(RcDoc::nil(), |prefix, (index, comment)| {
+                // A text block starts its own line, so nothing separates it from a
+                // comment written on the line before it but the line break itself.
+                let before_text =
+                    comments.get(index + 1).is_some_and(|next| next.comment().as_text().is_some());
                 let separation = match comment.separation_after() {
-                    | LineSeparation::SameLine if before_block => LineSeparation::NextLine,
+                    | LineSeparation::SameLine if before_block || before_text => {
+                        LineSeparation::NextLine
+                    }
                     | separation => separation,
                 };
                 prefix
@@ -1146,7 +1153,9 @@ impl<'arena> PrettyFormatter<'arena> {
             | Pattern::Var(definition) => self.definition(*definition),
             | Pattern::Named(Named(field, inner)) => self.named_pattern(pattern, field, *inner),
             | Pattern::Ctor(Ctor(name, inner)) => {
-                self.constructor(name).append(self.pattern_constructor_argument(*inner))
+                self.constructor(name)
+                    .append(self.constructor_comment_gap((*inner).into()))
+                    .append(self.pattern_constructor_argument(*inner))
             }
             | Pattern::Project(ProjectionPattern(field, inner)) => {
                 self.projection_pattern(pattern, field, *inner)
@@ -1450,7 +1459,9 @@ impl<'arena> PrettyFormatter<'arena> {
             | Term::Data(Data { arms }) => self.block_like(self.data(term, arms)),
             | Term::CoData(CoData { arms }) => self.block_like(self.codata(term, arms)),
             | Term::Ctor(Ctor(name, body)) => {
-                self.constructor(name).append(self.term_constructor_argument(*body))
+                self.constructor(name)
+                    .append(self.constructor_comment_gap((*body).into()))
+                    .append(self.term_constructor_argument(*body))
             }
             | Term::Match(Match { scrut, arms }) => {
                 self.block_like(self.matcher(term, *scrut, arms))
@@ -1603,6 +1614,16 @@ impl<'arena> PrettyFormatter<'arena> {
                 BoundaryLayout::aligned(" ="),
                 self.annotated_term_fragment(inner),
             )),
+        }
+    }
+
+    /// A comment before a constructor argument must not touch the constructor
+    /// name: `-` and `'` continue an identifier, so `+C-- c` would lex as a name.
+    fn constructor_comment_gap(&self, argument: EntityId) -> RcDoc<'arena> {
+        if self.arena.trivia.leading_comments(argument).is_empty() {
+            RcDoc::nil()
+        } else {
+            RcDoc::space()
         }
     }
 
